@@ -868,6 +868,24 @@ class Analysis:
                 bound = n.get('maxsize', 10)
             else:
                 continue
+            if op == 'zip' and not self.injected:
+                # whoever feeds the input: an arrival that finds the input's buffer already at its bound is held back
+                # until the next tuple has left (with several producers on one input nothing bounds the buffer - each
+                # tuple wakes them all - but none of their emits completes before a tuple was emitted)
+                acc_ = ctx.accepted.get(nid, {})
+                out_seqs = [o.seq for o in self.outs[nid]]
+                for u in n['up']:
+                    mine = [i for i in self.ins[nid] if i.parent == u]
+                    for k_, i in enumerate(mine):
+                        occupancy = k_ - sum(1 for q in out_seqs if q < i.seq)
+                        a_ = acc_.get(i.idx)
+                        if occupancy >= bound and a_ is not None:
+                            nxt = [q for q in out_seqs if q > i.seq]
+                            if not nxt or a_ < nxt[0]:
+                                V.append(Violation('C03', 'C03.bound', a_,
+                                                   'zip %d (maxsize %d): input %d already held %d elements when %r arrived, yet the emit '
+                                                   'that brought it completed before any tuple had left' % (nid, bound, u, occupancy, i.value)))
+                                return V
             if op == 'zip':
                 ports = [u for u in n['up'] if self.serial_input_port(nid, u)]
                 if not ports:
